@@ -66,7 +66,7 @@ def corpus():
 
 
 def cases(rng, tier):
-    maxlen = 5 if tier == "quick" else 7
+    maxlen = 5 if tier == "quick" else 6
     for s in SETTINGS:
         for n in range(maxlen + 1):
             for t in itertools.product(ALPHA, repeat=n):
